@@ -80,6 +80,8 @@ func setup(c *Ctx, dir string, sc scenario, tag string) (*env, error) {
 		port := freePort()
 		e.b = NewNode(c.Bin, "c04b"+tag, dirB, fmt.Sprintf("- tcp-listener:\n    port: %d\n", port)+workCommandYAML(dirB))
 		if err := startReady(e.b); err != nil {
+			e.b.Kill()
+			e.b.KillStrays()
 			return nil, err
 		}
 		e.a = NewNode(c.Bin, "c04a"+tag, dirA, fmt.Sprintf("- tcp-peer:\n    address: 127.0.0.1:%d\n", port))
@@ -343,7 +345,7 @@ func experiment(c *Ctx, dir string, sc scenario, cs *crashSpec, tag string) (*ob
 	follow := o.RunnerUp || (sc.Kind == "remote-bound" && o.AtRestart.Started)
 	limit := 1500 * time.Millisecond
 	if follow {
-		limit = span + 7*time.Second
+		limit = span + 25*time.Second // generous: a loaded machine, a mesh that has to come back
 	}
 	deadline := time.Now().Add(limit)
 	for {
